@@ -710,6 +710,125 @@ pub fn run(ctx: &mut Ctx) {
     }
 
     // ------------------------------------------------------------------------------------
+    // Family Bz: the same keys with non-canonical MPI encodings: z leading zero octets in front of one of the
+    // public parameters (declared bit count covering them, or the canonical count of the value plus the zero
+    // octets). A library that accepts such a key has to report either the hash of the octets it was given or
+    // the hash of the canonical encoding of the same numbers, the very value it reports for the copy it writes
+    // (secret / public / re-parsed copies agree), and what it writes must be a fixpoint.
+    let nbz = ctx.qt(1600u64, 40000u64);
+    for i in 0..nbz {
+        if !ctx.mine() {
+            continue;
+        }
+        let mut rng = ctx.rng("Bz", i);
+        let created: u32 = rng.gen();
+        let (version, alg, bitsv, label): (u8, u8, Vec<usize>, &str) = match i % 4 {
+            0 => (4, 1, vec![1024 + (i as usize / 4 % 9), 17], "v4-rsa"),
+            1 => (4, 17, vec![1024, 160, 1023, 1017 + (i as usize / 4 % 8)], "v4-dsa"),
+            2 => (4, 16, vec![1024, 2, 1001 + (i as usize / 4 % 24)], "v4-elgamal"),
+            _ => (6, 1, vec![2048, 17], "v6-rsa"),
+        };
+        let vals: Vec<Vec<u8>> = bitsv
+            .iter()
+            .map(|&bits| {
+                let bytes = bits.div_ceil(8).max(1);
+                let mut v = vec![0u8; bytes];
+                rng.fill_bytes(&mut v);
+                let top = bits % 8;
+                if top != 0 {
+                    v[0] &= (1u8 << top) - 1;
+                    v[0] |= 1 << (top - 1);
+                } else {
+                    v[0] |= 0x80;
+                }
+                let l = v.len() - 1;
+                v[l] |= 1;
+                v
+            })
+            .collect();
+        let which = (i as usize / 4) % vals.len();
+        let z = [1usize, 2, 3, 8][(i as usize / 16) % 4];
+        let honest_bits = (i / 64) % 2 == 0;
+        let canonical: Vec<u8> = vals.iter().flat_map(|v| rfc::mpi(v)).collect();
+        let mut padded: Vec<u8> = vec![];
+        for (j, v) in vals.iter().enumerate() {
+            if j == which {
+                let real = v.len() * 8 - v[0].leading_zeros() as usize;
+                // the length field has to cover the zero octets for the reader to consume them
+                let declared = if honest_bits { (v.len() + z) * 8 } else { (v.len() + z - 1) * 8 + 1 + (real - 1) % 8 };
+                padded.extend((declared as u16).to_be_bytes());
+                padded.extend(std::iter::repeat(0u8).take(z));
+                padded.extend_from_slice(v);
+            } else {
+                padded.extend(rfc::mpi(v));
+            }
+        }
+        let rp_wire = RefPub { version, created, v3_expiry_days: 0, alg, material: padded };
+        let rp_canon = RefPub { version, created, v3_expiry_days: 0, alg, material: canonical };
+        let body = rp_wire.encode();
+        let replay = json!({"family": "Bz", "label": label, "body": hexs(&body), "padded_parameter": which, "zero_octets": z});
+        crate::core::describe_case(&format!("Bz:{label}"));
+        let hdr = PacketHeader::new_fixed(Tag::PublicKey, body.len() as u32);
+        type R = (Vec<u8>, Vec<u8>, Vec<u8>);
+        let parsed: Option<Result<(R, Option<R>), String>> = ctx.guarded("C13/Bz", || replay.clone(), || {
+            PublicKey::try_from_reader(hdr, &body[..]).map_err(|e| e.to_string()).map(|k| {
+                let w = k.to_bytes().unwrap_or_default();
+                let first = (k.fingerprint().as_bytes().to_vec(), kid(&k.legacy_key_id()), w.clone());
+                let again = PublicKey::try_from_reader(PacketHeader::new_fixed(Tag::PublicKey, w.len() as u32), &w[..])
+                    .ok()
+                    .map(|k2| (k2.fingerprint().as_bytes().to_vec(), kid(&k2.legacy_key_id()), k2.to_bytes().unwrap_or_default()));
+                (first, again)
+            })
+        });
+        ctx.eval();
+        match parsed {
+            None => {}
+            Some(Err(_)) => ctx.tally(&format!("Bz.rejected.{label}"), 1),
+            Some(Ok(((fp, id, w), again))) => {
+                ctx.tally(&format!("Bz.accepted.{label}"), 1);
+                ctx.cover(&("Bz", label, which, z, honest_bits));
+                ctx.seen("Bz.cells", format!("{label}|param{which}|z{z}|{}", if honest_bits { "bits-cover-zeros" } else { "bits-minimal" }));
+                let by_wire = fp == rp_wire.fingerprint() && id[..] == rp_wire.key_id()[..];
+                let by_canon = fp == rp_canon.fingerprint() && id[..] == rp_canon.key_id()[..];
+                ctx.tally(if by_canon { "Bz.hash-of-canonical-encoding" } else if by_wire { "Bz.hash-of-wire-octets" } else { "Bz.other" }, 1);
+                if !by_wire && !by_canon {
+                    ctx.violation(
+                        format!("C13/fingerprint-mismatch/v{version}/padded-mpi-{label}"),
+                        format!(
+                            "key with {z} zero octets in front of parameter {which}: fingerprint() = {} is neither the RFC hash of the octets given ({}) nor of the canonical encoding ({})",
+                            hex::encode(&fp), hex::encode(rp_wire.fingerprint()), hex::encode(rp_canon.fingerprint())
+                        ),
+                        replay.clone(),
+                    );
+                }
+                match again {
+                    None => ctx.violation(
+                        format!("C13/rewritten-copy-refused/padded-mpi-{label}"),
+                        format!("key with {z} zero octets in front of parameter {which} is accepted, but what the library writes for it is refused"),
+                        replay.clone(),
+                    ),
+                    Some((fp2, id2, w2)) => {
+                        if fp2 != fp || id2 != id {
+                            ctx.violation(
+                                format!("C13/unstable-after-reparse/padded-mpi-{label}"),
+                                format!("fingerprint {} / key id {} become {} / {} for the re-parsed copy", hex::encode(&fp), hex::encode(&id), hex::encode(&fp2), hex::encode(&id2)),
+                                replay.clone(),
+                            );
+                        }
+                        if w2 != w {
+                            ctx.violation(
+                                format!("C13/reserialise-differs/padded-mpi-{label}"),
+                                "the written copy of the key is not re-serialised identically (a re-exported key would hash differently)",
+                                replay.clone(),
+                            );
+                        }
+                    }
+                }
+            }
+        }
+    }
+
+    // ------------------------------------------------------------------------------------
     // Family C: key fixtures of the repository (read-only): parse with the library, compare
     // with the reference view of the same wire bytes.
     let mut files: Vec<std::path::PathBuf> = vec![];
